@@ -481,9 +481,9 @@ type EF5 = p3_field::extension::QuinticTrinomialExtensionField<KB>;
 /// Base permutation lifted to quintic lanes that, at its first call, replaces the capacity half of
 /// its INPUT by the constant 7 (the deviating executor of the compact-D1 replay).
 /// Deviation parameters of the compact-D1 replay (the trace generator is a plain `fn`):
-/// permutation call / table row to alter, and the mask of capacity limbs (bit j = limb 8+j).
+/// permutation call / table row to alter, and the mask of input limbs (bit j = limb j; 0xff00 = capacity).
 static DEV_ROW: AtomicUsize = AtomicUsize::new(0);
-static DEV_MASK: AtomicUsize = AtomicUsize::new(0xff);
+static DEV_MASK: AtomicUsize = AtomicUsize::new(0xff00);
 
 #[derive(Clone)]
 struct DeviatingIn {
@@ -500,7 +500,7 @@ impl Permutation<[EF5; 16]> for DeviatingIn {
         });
         if self.deviate && k == DEV_ROW.load(Ordering::SeqCst) {
             let mask = DEV_MASK.load(Ordering::SeqCst);
-            for (j, y) in base.iter_mut().skip(8).enumerate() {
+            for (j, y) in base.iter_mut().enumerate() {
                 if (mask >> j) & 1 == 1 {
                     *y = KB::from_u64(7);
                 }
@@ -520,7 +520,7 @@ fn forged_trace_d1(op_states: &p3_circuit::ops::OpStateMap) -> Result<Option<Box
     let mut tr: Poseidon2Trace<KB> = t.as_any().downcast_ref::<Poseidon2Trace<KB>>().expect("poseidon2 trace type").clone();
     let (row, mask) = (DEV_ROW.load(Ordering::SeqCst), DEV_MASK.load(Ordering::SeqCst));
     if row < tr.operations.len() {
-        for (j, v) in tr.operations[row].input_values.iter_mut().skip(8).enumerate() {
+        for (j, v) in tr.operations[row].input_values.iter_mut().enumerate() {
             if (mask >> j) & 1 == 1 {
                 *v = KB::from_u64(7);
             }
@@ -632,7 +632,7 @@ impl Permutation<[KB; 16]> for DeviatingInBase {
         let k = self.calls.fetch_add(1, Ordering::SeqCst);
         if self.deviate && k == DEV_ROW.load(Ordering::SeqCst) {
             let mask = DEV_MASK.load(Ordering::SeqCst);
-            for (j, y) in x.iter_mut().skip(8).enumerate() {
+            for (j, y) in x.iter_mut().enumerate() {
                 if (mask >> j) & 1 == 1 {
                     *y = KB::from_u64(7);
                 }
@@ -642,6 +642,149 @@ impl Permutation<[KB; 16]> for DeviatingInBase {
     }
 }
 impl p3_symmetric::CryptographicPermutation<[KB; 16]> for DeviatingInBase {}
+
+// ------------------------------------------------------------------ Poseidon1 compact-D1 replay
+#[derive(Clone)]
+struct DeviatingInP1 {
+    inner: p3_koala_bear::Poseidon1KoalaBear<16>,
+    calls: Arc<AtomicUsize>,
+    deviate: bool,
+}
+impl Permutation<[EF5; 16]> for DeviatingInP1 {
+    fn permute_mut(&self, x: &mut [EF5; 16]) {
+        let k = self.calls.fetch_add(1, Ordering::SeqCst);
+        let mut base: [KB; 16] = core::array::from_fn(|i| {
+            let cs: &[KB] = x[i].as_basis_coefficients_slice();
+            cs[0]
+        });
+        if self.deviate && k == DEV_ROW.load(Ordering::SeqCst) {
+            let mask = DEV_MASK.load(Ordering::SeqCst);
+            for (j, y) in base.iter_mut().enumerate() {
+                if (mask >> j) & 1 == 1 {
+                    *y = KB::from_u64(7);
+                }
+            }
+        }
+        self.inner.permute_mut(&mut base);
+        for i in 0..16 {
+            x[i] = EF5::from(base[i]);
+        }
+    }
+}
+#[derive(Clone)]
+struct DeviatingInBaseP1 {
+    inner: p3_koala_bear::Poseidon1KoalaBear<16>,
+    calls: Arc<AtomicUsize>,
+    deviate: bool,
+}
+impl Permutation<[KB; 16]> for DeviatingInBaseP1 {
+    fn permute_mut(&self, x: &mut [KB; 16]) {
+        let k = self.calls.fetch_add(1, Ordering::SeqCst);
+        if self.deviate && k == DEV_ROW.load(Ordering::SeqCst) {
+            let mask = DEV_MASK.load(Ordering::SeqCst);
+            for (j, y) in x.iter_mut().enumerate() {
+                if (mask >> j) & 1 == 1 {
+                    *y = KB::from_u64(7);
+                }
+            }
+        }
+        self.inner.permute_mut(x);
+    }
+}
+impl p3_symmetric::CryptographicPermutation<[KB; 16]> for DeviatingInBaseP1 {}
+
+fn forged_trace_p1_d1(op_states: &p3_circuit::ops::OpStateMap) -> Result<Option<Box<dyn p3_circuit::tables::NonPrimitiveTrace<EF5>>>, p3_circuit::CircuitError> {
+    use p3_circuit::ops::poseidon1_perm::{KoalaBearD1Width16, Poseidon1Trace, generate_poseidon1_trace};
+    let Some(t) = generate_poseidon1_trace::<EF5, KoalaBearD1Width16>(op_states)? else { return Ok(None) };
+    let mut tr: Poseidon1Trace<KB> = t.as_any().downcast_ref::<Poseidon1Trace<KB>>().expect("poseidon1 trace type").clone();
+    let (row, mask) = (DEV_ROW.load(Ordering::SeqCst), DEV_MASK.load(Ordering::SeqCst));
+    if row < tr.operations.len() {
+        for (j, v) in tr.operations[row].input_values.iter_mut().enumerate() {
+            if (mask >> j) & 1 == 1 {
+                *v = KB::from_u64(7);
+            }
+        }
+    }
+    Ok(Some(Box::new(tr)))
+}
+
+/// Same replay as `replay_d1` for the Poseidon1 compact-D1 table.
+fn replay_p1_d1(h: &Hist, deviate: bool) -> Result<(bool, bool, String), String> {
+    use p3_circuit::ops::Poseidon1Config;
+    use p3_circuit::ops::poseidon1_perm::{KoalaBearD1Width16, generate_poseidon1_trace};
+    use p3_circuit_prover::batch_stark_prover::{poseidon1_air_builders_d5, poseidon1_preprocessor, poseidon1_table_provers_d5};
+    use p3_circuit_prover::config::KoalaBearConfig;
+    let inner = p3_koala_bear::default_koalabear_poseidon1_16();
+    let obs: Vec<KB> = (0..(h.n1 + h.n2)).map(|i| KB::from_u64(1000 + 17 * i as u64)).collect();
+    let sample_with = |dev: bool| -> Vec<KB> {
+        let p = DeviatingInBaseP1 { inner: inner.clone(), calls: Arc::new(AtomicUsize::new(0)), deviate: dev };
+        let mut c = DuplexChallenger::<KB, _, 16, 8>::new(p);
+        let mut out = Vec::new();
+        let mut k = 0;
+        for (n, s) in [(h.n1, h.s1), (h.n2, h.s2)] {
+            for _ in 0..n {
+                c.observe(obs[k]);
+                k += 1;
+            }
+            for _ in 0..s {
+                let v: KB = c.sample();
+                out.push(v);
+            }
+        }
+        out
+    };
+    let native = sample_with(false);
+    let claimed = sample_with(deviate);
+    let differs = native != claimed;
+    let mut b = CircuitBuilder::<EF5>::new();
+    let perm = DeviatingInP1 { inner: inner.clone(), calls: Arc::new(AtomicUsize::new(0)), deviate };
+    if deviate {
+        b.enable_poseidon1_perm_base::<KoalaBearD1Width16, _>(forged_trace_p1_d1, perm);
+    } else {
+        b.enable_poseidon1_perm_base::<KoalaBearD1Width16, _>(generate_poseidon1_trace::<EF5, KoalaBearD1Width16>, perm);
+    }
+    let mut chal = CircuitChallenger::<16, 8, Poseidon1Config>::new_koalabear_poseidon1_base();
+    let mut samples = Vec::new();
+    for (n, s) in [(h.n1, h.s1), (h.n2, h.s2)] {
+        for _ in 0..n {
+            let t = b.public_input();
+            RecursiveChallenger::<KB, EF5>::observe(&mut chal, &mut b, t);
+        }
+        for _ in 0..s {
+            samples.push(RecursiveChallenger::<KB, EF5>::sample(&mut chal, &mut b));
+        }
+    }
+    for s in samples.clone() {
+        let e = b.public_input();
+        b.connect(s, e);
+    }
+    let circuit = b.build().map_err(|e| format!("build: {e:?}"))?;
+    let mut pubs: Vec<EF5> = obs.iter().map(|x| EF5::from(*x)).collect();
+    pubs.extend(claimed.iter().map(|x| EF5::from(*x)));
+    let mut runner = circuit.runner();
+    runner.set_public_inputs(&pubs).map_err(|e| format!("{e:?}"))?;
+    let traces = runner.run().map_err(|e| format!("run rejected by the runner: {e:?}"))?;
+    let packing = TablePacking::new(1, 1);
+    let cfg = config::koala_bear();
+    let npo: Vec<Box<dyn NpoPreprocessor<KB>>> = vec![poseidon1_preprocessor::<KB>()];
+    let (ad, prim, np) = get_airs_and_degrees_with_prep::<KoalaBearConfig, EF5, 5>(&circuit, &packing, &npo, &poseidon1_air_builders_d5::<KoalaBearConfig>(), ConstraintProfile::Standard).map_err(|e| format!("prep: {e:?}"))?;
+    let (airs, degs): (Vec<_>, Vec<usize>) = ad.into_iter().unzip();
+    let pd = ProverData::from_airs_and_degrees(&cfg, &airs, &degs);
+    let cpd = CircuitProverData::new(pd, prim, np);
+    let mut prover = BatchStarkProver::new(cfg).with_table_packing(packing);
+    for p in poseidon1_table_provers_d5::<KoalaBearConfig>(Poseidon1Config::KOALA_BEAR_D1_W16) {
+        prover.register_table_prover(p);
+    }
+    let res = std::panic::catch_unwind(std::panic::AssertUnwindSafe(|| prover.prove_all_tables(&traces, &cpd)));
+    match res {
+        Ok(Ok(proof)) => {
+            let v = prover.verify_all_tables::<EF5>(&proof);
+            Ok((v.is_ok(), differs, format!("verify: {v:?}")))
+        }
+        Ok(Err(e)) => Ok((false, differs, format!("prove error: {e:?}"))),
+        Err(_) => Ok((false, differs, "prover panicked (debug constraint check)".into())),
+    }
+}
 
 fn main() {
     std::panic::set_hook(Box::new(|_| {}));
@@ -660,6 +803,8 @@ fn main() {
         for h in histories(true) {
             eprintln!("control d1 {h:?}: {:?}", replay_d1(&h, false));
             eprintln!("forged  d1 {h:?}: {:?}", replay_d1(&h, true));
+            eprintln!("control p1-d1 {h:?}: {:?}", replay_p1_d1(&h, false));
+            eprintln!("forged  p1-d1 {h:?}: {:?}", replay_p1_d1(&h, true));
         }
         return;
     }
@@ -764,10 +909,10 @@ fn main() {
                 let control = replay_d1(&h, false);
                 let mut found: Option<(usize, usize, String)> = None;
                 let mut tried = 0;
-                let mut strategies: Vec<(usize, usize)> = vec![(0, 0xff)];
-                for row in 1..sys.n_rows.min(3) {
-                    strategies.push((row, 0xff));
-                    for j in 0..8 {
+                let mut strategies: Vec<(usize, usize)> = Vec::new();
+                for row in 0..sys.n_rows.min(3) {
+                    strategies.push((row, 0xff00));
+                    for j in (8..16).chain(0..8) {
                         strategies.push((row, 1 << j));
                     }
                 }
@@ -783,10 +928,10 @@ fn main() {
                     }
                 }
                 DEV_ROW.store(0, Ordering::SeqCst);
-                DEV_MASK.store(0xff, Ordering::SeqCst);
+                DEV_MASK.store(0xff00, Ordering::SeqCst);
                 match found {
                     Some((row, mask, info)) => {
-                        role_override = Some(if row == 0 { "first-row-capacity-unconstrained:compact-d1".to_string() } else { format!("chained-capacity-unconstrained:compact-d1:limbs{mask:#x}") });
+                        role_override = Some(if row == 0 && mask == 0xff00 { "first-row-capacity-unconstrained:compact-d1".to_string() } else if mask & 0xff00 != 0 { format!("chained-capacity-unconstrained:compact-d1:row{row}:limbs{mask:#x}") } else { format!("rate-input-unconstrained:compact-d1:row{row}:limbs{mask:#x}") });
                         (true, format!("KoalaBear quintic circuit, capacity inputs (mask {mask:#x}) of permutation row {row} set to 7: honest control proof verified, forged proof verified, challenge differs from native ({info})"))
                     }
                     None => (false, format!("KoalaBear quintic circuit: control {:?}; none of {tried} capacity deviations produced a verifying proof", control.map(|c| c.0))),
@@ -806,6 +951,29 @@ fn main() {
                 sh.undecided.push(json!({"non_reproducing_counterexample": v}));
             } else {
                 sh.undecided.push(json!({"non_reproducing_counterexample": v}));
+            }
+        }
+    }
+    // ---------- supplementary, NOT solver-decided: the Poseidon1 compact-D1 table has the same layout
+    // as the Poseidon2 one modelled above but no symbolic twin here; the first-row / chained-capacity
+    // deviations are replayed on it with the real prover (regression guard for the repaired defect)
+    if args.shard == 0 && std::env::var("VERIF_FILTER").is_err() {
+        for h in histories(false).into_iter().take(if thorough { 4 } else { 2 }) {
+            let label = format!("poseidon1 koala-bear d1-w16 (quintic circuit) observe {} sample {} observe {} sample {}", h.n1, h.s1, h.n2, h.s2);
+            sh.bump("c06.p1_replay.histories");
+            DEV_ROW.store(0, Ordering::SeqCst);
+            DEV_MASK.store(0xff00, Ordering::SeqCst);
+            match (replay_p1_d1(&h, false), replay_p1_d1(&h, true)) {
+                (Ok((true, false, _)), Ok((verified, differs, info))) => {
+                    if verified && differs {
+                        sh.bump("c06.violations_confirmed");
+                        violations.push(json!({"property": "C06", "kind": "challenge-not-bound", "signature": "C06/challenge-not-bound:first-row-capacity-unconstrained:poseidon1-compact-d1",
+                            "detail": format!("capacity inputs of the first Poseidon1 permutation row set to 7: honest control proof verified, forged proof verified, challenge differs from native ({info})"), "program_text": label, "confirmed_by_native_replay": true}));
+                    } else {
+                        sh.bump("c06.p1_replay.forged_rejected");
+                    }
+                }
+                (c, f) => sh.undecided.push(json!({"program": label, "why": format!("replay not conclusive: control {:?} forged {:?}", c.map(|x| (x.0, x.1)), f.map(|x| (x.0, x.1)))})),
             }
         }
     }
